@@ -38,9 +38,10 @@ def _ok_pattern(ec, v=None):
     esc = re.escape(ec['ESCAPE'])
     letters = _letters_for(v, ec) if v else R.esc_letters(ec)
     bad = ''.join(re.escape(c) for c in S.active_chars(ec))
-    if ec['ESCAPE'].isalnum() or ec['ESCAPE'] in '.+- ':
+    others = R.other_sequences(ec['ESCAPE'])
+    if others is None:
         return re.compile(r'(?:%s[%s]%s|[^%s])*\Z' % (esc, letters, esc, bad), re.S)
-    return re.compile(r'(?:%s[%s]%s|%s%s%s|[^%s])*\Z' % (esc, letters, esc, esc, R.OTHER_SEQUENCES.pattern, esc, bad), re.S)
+    return re.compile(r'(?:%s[%s]%s|%s%s%s|[^%s])*\Z' % (esc, letters, esc, esc, others.pattern, esc, bad), re.S)
 
 
 def _letters_for(v, ec):
